@@ -64,6 +64,19 @@ func (rl *Shell) Readline() (string, error) {
 
 	rl.init()
 
+	// If a command panics, leave the cursor below the input line like
+	// any other way out of the call, before letting the panic through.
+	defer func() {
+		if err := recover(); err != nil {
+			func() {
+				defer func() { _ = recover() }()
+				rl.Display.AcceptLine()
+			}()
+
+			panic(err)
+		}
+	}()
+
 	// Terminal resize events
 	resize := display.WatchResize(rl.Display)
 	defer close(resize)
